@@ -253,7 +253,10 @@ func (g *gemExtension) compare(e extension) int {
 			return -1
 		}
 		if ac == versionNumeric {
-			return sgn64(a.int, b.int)
+			if s := sgn64(a.int, b.int); s != 0 {
+				return s
+			}
+			continue // Same value spelled differently, such as 01 and 1.
 		}
 		c := strings.Compare(a.str, b.str)
 		if c == 0 {
@@ -261,8 +264,6 @@ func (g *gemExtension) compare(e extension) int {
 		}
 		return c
 	}
-	if len(bs) > len(as) {
-		return -1
-	}
+	// Every element, with padding, compared equal.
 	return 0
 }
